@@ -6,6 +6,8 @@ import (
 	"context"
 	"errors"
 	"time"
+
+	"github.com/agglayer/aggkit/aggsender/types"
 )
 
 // This file only exists under the `verif` build tag. It exposes single-step entry points of the
@@ -35,3 +37,7 @@ func (a *AggSender) VerifStep(ctx context.Context, epochTick bool) {
 
 // VerifLastError returns the last error recorded in the aggsender status.
 func (a *AggSender) VerifLastError() string { return a.status.LastError }
+
+// VerifSetFlow replaces the flow built by New (e.g. by one built with the exported
+// flows.NewAggchainProverFlow over harness-provided prover and queriers).
+func (a *AggSender) VerifSetFlow(f types.AggsenderFlow) { a.flow = f }
